@@ -311,6 +311,20 @@ def run_impl(case):
         bad = [it for it in items if it.get("raise")]
         return {"raise": bad[0]["raise"] if bad else None, "site": bad[0].get("site") if bad else None,
                 "items": items}
+    if kind == "flake0D_starts":
+        # several pairs in ONE process with different start temperatures, `initialStates` left at its default
+        items = []
+        try:
+            for st in case["starts"]:
+                it = _flake_pair(dict(case, start=st))
+                it["K_shelf"] = case["K_shelf"]
+                it["start"] = st
+                items.append(it)
+        except Exception as e:
+            return {"raise": core.exc_class(e), "site": "Snowflake", "stage": repr(e)[:200]}
+        bad = [it for it in items if it.get("raise")]
+        return {"raise": bad[0]["raise"] if bad else None, "site": bad[0].get("site") if bad else None,
+                "items": items}
     if kind == "flake0D_sweep":
         # one heat-transfer dict for the whole sweep: Snowflake and Snowing built from it alternately
         k = {"int": 0, "ext": 0, "s0": case["K_list"][0], "s_sigma_rel": 0}
@@ -437,6 +451,9 @@ def predicates(case, impl):
     elif kind == "flake0D_sweep":
         for n, it in enumerate(impl["items"]):
             out += _flake_preds(it, f"shared-k#{n}")
+    elif kind == "flake0D_starts":
+        for n, it in enumerate(impl["items"]):
+            out += _flake_preds(it, f"start#{n}")
     elif kind == "flake0D_sharedop":
         for n, it in enumerate(impl["items"]):
             out += _flake_preds(it, f"shared-opcond#{n}")
@@ -465,7 +482,7 @@ def classify(case, impl):
     if case.get("kind") == "pair2D1D" and not impl.get("raise"):
         tags.append(f"pair: gap={impl['gap_cooling']:.3g}K late={impl.get('gap_late', 0):.3g}K "
                     f"tsol {impl['stats2D'][5]:.3f}/{impl['stats1D'][5]:.3f}")
-    if case.get("kind") in ("flake0D_sweep", "flake0D_sharedop") and not impl.get("raise"):
+    if case.get("kind") in ("flake0D_sweep", "flake0D_sharedop", "flake0D_starts") and not impl.get("raise"):
         tags.append("sweep: " + " ".join(f"K={it['K_shelf']}:tsol {it['tsol_flake']:.1f}/{it['tsol_0D']:.1f}" for it in impl["items"]))
     if case.get("kind") == "flake0D" and not impl.get("raise"):
         tags.append(f"flake: tsol {impl['tsol_flake']:.1f}/{impl['tsol_0D']:.1f}s")
@@ -505,6 +522,7 @@ def cases(rng, tier):
     P1 = dict(start=20, stop=-50, rate=0.05, hold=[-8.0, 1200], t_tot=4000)
     yield dict(kind="flake0D_sharedop", K_shelf=200,
                programs=[P1, dict(P1, hold=[-6.0, 1500], rate=0.1)] + ([] if tier == "quick" else [dict(P1, start=10, t_tot=3600)]))
+    yield dict(kind="flake0D_starts", K_shelf=200, starts=[12, 20, 5], stop=-50, rate=0.05, hold=[-8.0, 1200], t_tot=4000)
     yield dict(kind="flake0D_sweep", K_list=[200, 400] if tier == "quick" else [200, 400, 100], start=20, stop=-50,
                rate=0.05, hold=[-8.0, 1200], t_tot=4000)
     thin = [dict(kind="thin", height=0.01, K_shelf=20, rate=0.5, t_tot=3500),
